@@ -317,6 +317,66 @@ def execute(case, keep_text=False):
                     raise Stop()
             if sum(len(d[n]) for n in names) >= 3:
                 out.bump('probes', 'three_or_more_components')
+            reference_components(step, d)
+
+    def reference_components(step, full):
+        """R7: each component's slant optical depth recomputed by a plain
+        double loop: sum_j w[j+layer] * xsec(T,P)[j+layer] * rho[j+layer]^n *
+        dl[layer][j] with w the species' mixing ratio (n=1) or the product of
+        both partners' ratios (n=2, CIA).  Geometry (path lengths), density
+        and the cross-section lookup are taken from the real model; what is
+        decided is the weighting, the layer indexing and the density power."""
+        from taurex.cache import OpacityCache, CIACache
+        from taurex.util.scattering import rayleigh_sigma_from_name
+        grid = model.nativeWavenumberGrid
+        rho = np.asarray(model.densityProfile, dtype=float)
+        Tp = np.asarray(model.temperatureProfile, dtype=float)
+        Pp = np.asarray(model.pressureProfile, dtype=float)
+        dl = model.path_length
+        nl = model.nLayers
+        chem = model.chemistry
+        for cname in ('Absorption', 'CIA', 'Rayleigh'):
+            if cname not in full:
+                continue
+            for nme, absorp, T_impl, _x in full[cname]:
+                if cname == 'Absorption':
+                    w = np.asarray(chem.get_gas_mix_profile(nme), dtype=float)
+                    xs = np.array([OpacityCache()[nme].opacity(Tp[j], Pp[j],
+                                                               grid)
+                                   for j in range(nl)])
+                    power = 1
+                elif cname == 'CIA':
+                    a, b = nme.split('-')
+                    w = np.asarray(chem.get_gas_mix_profile(a), dtype=float) * \
+                        np.asarray(chem.get_gas_mix_profile(b), dtype=float)
+                    xs = np.array([CIACache()[nme].cia(Tp[j], grid)
+                                   for j in range(nl)])
+                    power = 2
+                else:
+                    w = np.asarray(chem.get_gas_mix_profile(nme), dtype=float)
+                    sig = rayleigh_sigma_from_name(nme, grid)
+                    xs = np.tile(sig, (nl, 1))
+                    power = 1
+                tau = np.zeros((nl, len(grid)))
+                for layer in range(nl):
+                    for j in range(nl - layer):
+                        tau[layer] += w[j + layer] * xs[j + layer] * \
+                            rho[j + layer] ** power * dl[layer][j]
+                with np.errstate(divide='ignore'):
+                    t_impl = -np.log(np.asarray(T_impl, dtype=float))
+                # -log(T) carries an absolute error of a few eps
+                use = (tau > 1e-7) & (tau < 50)
+                out.bump('steps', 'R7_checked')
+                if use.any() and np.any(np.abs(t_impl[use] - tau[use]) >
+                                        1e-9 * tau[use] + 1e-12):
+                    j = np.argwhere(use & (np.abs(t_impl - tau) >
+                                           1e-9 * tau + 1e-12))[0]
+                    viol('composition', 'R7:%s' % cname,
+                         '%s/%s: optical depth %r at layer %d differs from '
+                         'the mixing-ratio weighted, density^%d sum %r'
+                         % (cname, nme, float(t_impl[tuple(j)]), j[0], power,
+                            float(tau[tuple(j)])), step)
+                    raise Stop()
 
     obs = S.build_obs(case['config']['obs'])
     try:
